@@ -32,7 +32,7 @@ STUB = ['dsim/vsim parser + elaborator as the judge of legality']
 ASSUMPTIONS = ['legality = the elaboration rules listed in dsim/vsim/README.md (declared once, not reserved, defined once, '
                'interfaces match, one driver per net bit); debatable rules are lenient']
 _KF = known_findings()
-PROBES = ['text_elaborated', 'reserved_name', 'gen_crash', 'regen_other', 'child_module', 'created_structures'] + [
+PROBES = ['built_around_another_system', 'text_elaborated', 'reserved_name', 'gen_crash', 'regen_other', 'child_module', 'created_structures'] + [
     p for p, tok in (('prefix_collision', 'prefix-collision-w'), ('clk_port', 'port-named-clk'), ('inst_port_collision', 'port-vs-instance-name'))
     if not _KF.excluded(tok)]      # naming faults of open findings are kept out of the campaign (their reproducers are replayed instead)
 
@@ -124,7 +124,8 @@ def gen(rs, tier, index):
         calls.append({'c': 'hier', 'fresh': True})
     order = list(d['order'])
     rng.shuffle(order)
-    return {'design': d, 'order': order, 'calls': calls, 'naming': faults, 'other_seed': rs.sub('other')}
+    late = fr.randint(1, len(order) - 1) if (len(order) > 1 and fr.random() < 0.3) else None
+    return {'design': d, 'order': order, 'calls': calls, 'naming': faults, 'other_seed': rs.sub('other'), 'late': late}
 
 
 def other_circuit(seed):
@@ -216,7 +217,15 @@ def run(scn, log, st):
         st.probe(f)
     if nfs:
         st.fault('naming', len(nfs))
-    b = netlist.Built(d).build(scn['order'])
+    if scn.get('late'):
+        # construction interleaved with the construction of another system: part of the circuit, another HWSystem, the rest
+        b = netlist.Built(d).build(scn['order'][:scn['late']])
+        other_circuit(scn['other_seed'] ^ 2)
+        b.build(scn['order'])
+        st.fault('late_add')
+        st.probe('built_around_another_system')
+    else:
+        b = netlist.Built(d).build(scn['order'])
     if structure_variants(b):
         st.probe('shared_structure_variants')
     gen_obj = py4hw.VerilogGenerator(b.dut)
